@@ -25,12 +25,12 @@ RULE = ('case = (scenario, field values, point in the conversation); distinct = 
 ASSUMPTIONS = ['loopback TCP is reliable']
 REQUIRED = ['oracle.reject-faithful', 'oracle.abort-faithful', 'oracle.release-faithful',
             'oracle.context-manager', 'oracle.no-service-on-refused', 'oracle.exit-after-timeout-releases',
-            'oracle.exit-through-library-error', 'oracle.exit-through-foreign-error']
+            'oracle.exit-through-library-error', 'oracle.exit-through-foreign-error', 'oracle.abort-at-odd-moments']
 
 SCENARIOS = ['reject-lib-lib', 'reject-refpeer-acceptor', 'reject-then-hostile-request',
              'abort-by-requestor-lib-lib', 'abort-by-requestor-refpeer-acceptor',
              'abort-by-acceptor-lib-lib', 'abort-by-refpeer-acceptor', 'release-by-refpeer-acceptor',
-             'release-lib-lib', 'exit-with-exception']
+             'release-lib-lib', 'exit-with-exception', 'abort-instead-of-accept', 'abort-mid-message']
 STANDARD_TRIPLES = [(res, src, rsn) for res in (1, 2) for src, rsns in ((1, (1, 2, 3, 7)), (2, (1, 2)),
                                                                         (3, (1, 2))) for rsn in rsns]
 STANDARD_ABORTS = [(0, 0), (2, 0), (2, 1), (2, 2), (2, 4), (2, 5), (2, 6)]
@@ -246,6 +246,12 @@ def run_case(res, case, attempt=0):
                                            'reason': triple[2]})
                             peer.wait_closed(3.0)
                             return 'rejected'
+                        if scenario == 'abort-instead-of-accept':
+                            # an acceptor may answer the request with an A-ABORT (Sta3)
+                            peer.expect(1)
+                            peer.abort(*pair)
+                            peer.wait_closed(3.0)
+                            return 'aborted'
                         peer.accept(max_len=1024)
                         seen = []
                         while True:
@@ -266,6 +272,17 @@ def run_case(res, case, attempt=0):
                                                       R.TAG_COMMAND_FIELD: 0x8030,
                                                       R.TAG_MESSAGE_ID_RSP: 1, R.TAG_STATUS: 0})
                                 continue
+                            if scenario == 'abort-mid-message':
+                                # the abort arrives between two fragments of the response
+                                rsp = R.build_command_set({
+                                    R.TAG_AFFECTED_SOP_CLASS: svc.VERIFICATION, R.TAG_COMMAND_FIELD: 0x8030,
+                                    R.TAG_MESSAGE_ID_RSP: cmd.get(R.TAG_MESSAGE_ID), R.TAG_STATUS: 0,
+                                    R.TAG_DATA_SET_TYPE: 0x0101})
+                                cut = [10, len(rsp) // 2, len(rsp) - 1][k % 3]
+                                peer.send_pdu({'type': 4, 'pdvs': [{'ctx': ctx, 'data': b'\x01' + rsp[:cut]}]})
+                                peer.abort(*pair)
+                                peer.wait_closed(3.0)
+                                return seen
                             if scenario == 'abort-by-refpeer-acceptor':
                                 peer.abort(*pair)
                                 peer.wait_closed(3.0)
@@ -384,8 +401,11 @@ def judge(res, case, where, scenario, triple, pair, point, client_error, server_
             if point == 'during' and not any(c[1] == 'CStoreRQMessage' for c in service_calls):
                 pass      # the abort may legitimately overtake the dispatch of the request
         return
-    if scenario in ('abort-by-acceptor-lib-lib', 'abort-by-refpeer-acceptor'):
+    if scenario in ('abort-by-acceptor-lib-lib', 'abort-by-refpeer-acceptor', 'abort-instead-of-accept',
+                    'abort-mid-message'):
         res.count('oracle.abort-faithful')
+        if scenario in ('abort-instead-of-accept', 'abort-mid-message'):
+            res.count('oracle.abort-at-odd-moments')
         want = (2, pair[1]) if scenario == 'abort-by-acceptor-lib-lib' else tuple(pair)
         if not isinstance(client_error, exceptions.AssociationAbortedError):
             res.violation('abort-wrong-exception', 'C14.abort', '%s: requestor got %s: %s (extra %r)' % (
